@@ -766,10 +766,13 @@ def gen_state(rng, db, naccounts, extra_mode='full'):
     return root, accs, path
 
 
-def gen_header(rng, db, state_info):
-    """block-like tree whose root[2][1] is a pruned branch of the state (inside a Merkle update, as in real blocks, or plain)."""
-    old = db.add(G.ORD, G.rand_bits(rng, 30))
-    p_old = db.add(*G.make_pruned_of(db.infos[old], 1))
+def gen_header(rng, db, state_info, old_info=None):
+    """block-like tree whose root[2][1] is a pruned branch of the state (inside a Merkle update, as in real blocks, or plain).
+    old_info: SpecInfo of the OLD state (default: a small random cell)."""
+    if old_info is None:
+        old = db.add(G.ORD, G.rand_bits(rng, 30))
+        old_info = db.infos[old]
+    p_old = db.add(*G.make_pruned_of(old_info, 1))
     p_new = db.add(*G.make_pruned_of(state_info, 1))
     x = db.add(G.MUPDATE, G.mupdate_bits(db.infos[p_old], db.infos[p_new]), (p_old, p_new))
     a = G.gen_exotic_tree(rng, db, 0, rng.randrange(1, 5))
@@ -1618,15 +1621,265 @@ def src_families(ctx, rng):
         forged_state_hash(ctx, rng, pn, pinfos, R, proot, h)
 
 
+# ----------------------------------------------------------------------------- round 11: forged Merkle-update children, falsy arguments
+
+def py_lookup3(st, key):
+    """hashmap.tlb lookup with a THREE-valued answer (independent of the library's parsers): ('found', account cell) |
+    ('absent',) = every cell on the path of `key` is revealed, ordinary and readable and the path ends WITHOUT the key |
+    ('hidden',) = a cell on the path is pruned / exotic / unreadable: the proof says nothing about the key."""
+    def rec(c):
+        return c.type_, c.bits.to01(), c.refs
+    k, b, r = rec(st)
+    if k != -1 or len(b) < 361 or b[:32] != ubits(0x9023afe2, 32) or len(r) < 2:
+        return ('hidden',)
+    k, b, r = rec(r[1])
+    if k != -1 or not b:
+        return ('hidden',)
+    if b[0] == '0':
+        return ('absent',)
+    if not r:
+        return ('hidden',)
+    c, n = r[0], 256
+    while True:
+        k, b, r = rec(c)
+        if k != -1:
+            return ('hidden',)
+        lr = py_label(b, n)
+        if lr is None:
+            return ('hidden',)
+        lbl, rest = lr
+        if len(lbl) > n:
+            return ('hidden',)
+        if key[:len(lbl)] != lbl:
+            return ('absent',)
+        key = key[len(lbl):]
+        n -= len(lbl)
+        if n == 0:
+            break
+        if len(r) < 2:
+            return ('hidden',)
+        c = r[int(key[0])]
+        key = key[1:]
+        n -= 1
+    got = None
+    if len(rest) >= 9:
+        gl = int(rest[5:9], 2)
+        if len(rest) >= 9 + 8 * gl + 1:
+            nref = int(rest[9 + 8 * gl])
+            if len(rest) - (10 + 8 * gl) >= 320 and len(r) > nref:
+                got = r[nref]
+    return ('found', got) if got is not None else ('hidden',)
+
+
+FALSY_CLAIMS = {'None': None, 'False': False, '0': 0, "b''": b'', "''": '', '[]': [], '()': (), '{}': {}, '0.0': 0.0}
+
+
+def run_account_falsy_case(ctx, nodes, roots, blk_hash, key, claim, sroot_idx, fkey, what):
+    """check_account_proof(honest proof, address, account_state_root = a FALSY non-cell value): a claim "this account has no state".
+    Judged by the independent three-valued lookup on the state cell of the proof: accepted only if the path to the key is fully
+    revealed and ends without the key; 'found' and 'hidden' must be refused (both calling modes)."""
+    from pytoniq_core.proof.check_proof import check_account_proof
+    from pytoniq_core.tl.block import BlockIdExt
+    from pytoniq_core.boc.address import Address
+    libs = G.lib_build(nodes)
+    kb = key.to_bytes(32, 'big')
+    if any(libs[r] is None for r in roots) or libs[sroot_idx] is None:
+        return
+    verdict = py_lookup3(libs[sroot_idx], ubits(key, 256))[0]
+    boc = multi_root_boc([libs[r] for r in roots])
+    blk = BlockIdExt(0, -9223372036854775808, 1, blk_hash, bytes(32))
+    ctx.case(('acct-falsy', fkey, claim, tuple(nodes), tuple(roots), blk_hash, key), sample={'op': 'check_account_proof', 'claim': claim, 'key': fkey, 'lookup': verdict})
+    for mode in (False, True):
+        try:
+            r = check_account_proof(boc, blk, Address((0, kb)), FALSY_CLAIMS[claim], mode)
+            got = 'acc'
+        except Exception:
+            got = 'rej'
+        ctx.count(f'{fkey}:{verdict}:{got}')
+        if got == 'acc' and verdict != 'absent':
+            ctx.fail(fkey, f'check_account_proof(account_state_root={claim}, return_account_descr={mode}): {what} '
+                     f'(independent lookup of the address in the proof\'s state cell: {verdict})',
+                     {'op': 'acct-falsy', 'dag': jnodes(nodes), 'roots': list(roots), 'blk_hash': blk_hash.hex(), 'addr': kb.hex(), 'claim': claim,
+                      'sroot_idx': sroot_idx, 'key': fkey, 'what': what}, got, 'rej')
+            return
+
+
+def falsy_entry_args(ctx, nodes, roots, blk_hash, key, sidx):
+    """the other arguments of the proof entry points set to falsy values against an honest proof: never a silent acceptance"""
+    from pytoniq_core.proof.check_proof import check_proof, check_block_header_proof, check_account_proof
+    from pytoniq_core.tl.block import BlockIdExt
+    from pytoniq_core.boc.address import Address
+    libs = G.lib_build(nodes)
+    if any(libs[r] is None for r in roots) or libs[sidx] is None:
+        return
+    boc = multi_root_boc([libs[r] for r in roots])
+    blk = BlockIdExt(0, -9223372036854775808, 1, blk_hash, bytes(32))
+    addr = Address((0, key.to_bytes(32, 'big')))
+    inp = {'op': 'acct', 'dag': jnodes(nodes), 'roots': list(roots), 'blk_hash': blk_hash.hex(), 'addr': key.to_bytes(32, 'big').hex(), 'state_idx': sidx,
+           'expect': 'acc', 'key': 'falsy:args'}
+    for name, val in FALSY_CLAIMS.items():
+        calls = [('check_proof(root, %s)' % name, lambda: check_proof(libs[roots[0]], val)),
+                 ('check_block_header_proof(body, %s, False)' % name, lambda: check_block_header_proof(libs[roots[0]][0], val, False)),
+                 ('check_block_header_proof(body, %s, True)' % name, lambda: check_block_header_proof(libs[roots[0]][0], val, True)),
+                 ('check_account_proof(proof=%s)' % name, lambda: check_account_proof(val, blk, addr, libs[sidx])),
+                 ('check_account_proof(shrd_blk=%s)' % name, lambda: check_account_proof(boc, val, addr, libs[sidx])),
+                 ('check_account_proof(address=%s)' % name, lambda: check_account_proof(boc, blk, val, libs[sidx]))]
+        for what, fn in calls:
+            ctx.count('falsy:args')
+            try:
+                fn()
+                got = 'acc'
+            except Exception:
+                got = 'rej'
+            if got != 'rej':
+                ctx.fail('falsy:args', f'{what} on an honest proof returned without an error', dict(inp, call=what), got, 'rej')
+                return
+    ctx.case(('falsy-args', tuple(nodes), tuple(roots), blk_hash, key))
+
+
+def forged_children(S, honest_l1, full):
+    """pruned branches of every mask 1..7 whose stored (hash, depth) pairs are drawn from the pool S; full = every tuple,
+    otherwise only those that keep the enclosing hashes (the hash the parent asks for, level 1, is the honest child's)."""
+    import itertools
+    for mask in range(1, 8):
+        k = G.popcount(mask)
+        # index of the stored hash that answers level 1 (None: the representation hash answers)
+        i1 = G.popcount(mask & 1)
+        i1 = i1 if i1 < k else None
+        for tup in itertools.product(range(len(S)), repeat=k):
+            keeps = i1 is not None and S[tup[i1]][0] == honest_l1
+            if full or keeps:
+                yield mask, tup, keeps
+
+
+def update_children_stream(ctx, rng):
+    """FORGED MERKLE-UPDATE CHILDREN: the old-state / new-state child of the block's state update replaced by pruned branches of
+    every mask whose stored hashes come from the hashes that occur in the proof (old state, new state, block, the honest children's
+    own hashes). What check_block_header_proof(.., True) hands out must be the hash the block commits to as NEW state or an error;
+    the end-to-end account check with the OLD state (an honest state proof of it and its account) must be refused."""
+    for t in range(ctx.n(12, 60)):
+        dbo, dbn = G.DagBuilder(), G.DagBuilder()
+        oroot, oaccs, opath = gen_state(rng, dbo, rng.choice([1, 2, 3, 5]))
+        nroot, naccs, npath = gen_state(rng, dbn, rng.choice([1, 2, 3, 5]))
+        if not dbo.ok(oroot) or not dbn.ok(nroot) or dbo.infos[oroot].H[0] == dbn.infos[nroot].H[0]:
+            continue
+        oinfo, ninfo = dbo.infos[oroot], dbn.infos[nroot]
+        hdb = G.DagBuilder()
+        hroot, hx_node, hp_new = gen_header(rng, hdb, ninfo, oinfo)
+        if not hdb.ok(hroot) or hdb.infos[hroot].mask != 0:
+            continue
+        hp_old = hdb.nodes[hx_node][2][0]
+        h_nodes, h_infos = hdb.nodes[:hroot + 1], hdb.infos[:hroot + 1]
+        blk_hash = h_infos[hroot].H[0]
+        H_new = ninfo.H[0]
+        S = [(oinfo.H[0], oinfo.D[0]), (ninfo.H[0], ninfo.D[0]), (blk_hash, h_infos[hroot].D[0]),
+             (h_infos[hp_old].H[1], h_infos[hp_old].D[1]), (h_infos[hp_new].H[1], h_infos[hp_new].D[1])]
+        allowed = ('rej', 'acc x', 'acc ' + H_new.hex())
+        stale = []
+        for pos, node in ((1, hp_new), (0, hp_old)):
+            for mask, tup, keeps in forged_children(S, h_infos[node].H[1], full=(t < 3)):
+                mut = list(h_nodes)
+                mut[node] = (G.PRUNED, G.pruned_bits(mask, [S[i][0] for i in tup], [S[i][1] for i in tup]), ())
+                libs = G.lib_build(mut)
+                goth = lib_verdict_hdr(libs[hroot], blk_hash)
+                ctx.case(('upd-child', tuple(mut), blk_hash), sample={'op': 'check_block_header_proof', 'child': pos, 'mask': mask, 'verdict': goth.split()[0]})
+                ctx.count(f'upd-child:{"old" if pos == 0 else "new"}:mask{mask}:{"keeps" if keeps else "breaks"}-block-hash:{"acc-new" if goth == allowed[2] else goth if goth in allowed else "acc-OTHER"}')
+                if goth not in allowed:
+                    ctx.fail('sound:update-children', f'check_block_header_proof(.., True) returned a state hash that is not the NEW state the block commits to '
+                             f'({"new" if pos else "old"}-state child of the state update replaced by a mask-{mask} pruned branch storing hashes that occur in the proof)',
+                             {'op': 'hdr', 'dag': jnodes(mut), 'idx': hroot, 'hash': blk_hash.hex(), 'expect': None, 'allowed': list(allowed), 'key': 'sound:update-children'},
+                             goth, ' | '.join(allowed))
+                if keeps or rng.random() < 0.15:
+                    ctx.expect_model(f'chkhdr {dag_str(mut)} {hroot} {hx(blk_hash)}', goth, 'sound:update-children')
+                if pos == 1 and keeps and S[tup[0]][0] == oinfo.H[0] and (mask & 1):
+                    stale.append(mut)
+        # end to end: the forged header + an honest proof of the OLD state + the old account state
+        k2 = rng.choice(sorted(oaccs))
+        a2 = oaccs[k2]
+        for mut in stale[:ctx.n(4, 12)]:
+            libs_h = G.lib_build(mut)
+            if libs_h[hroot] is None:
+                continue
+            dagx = []
+            o = append_dag(dagx, mut)
+            dagx.append((G.MPROOF, G.bytes_to_bits(bytes([3]) + libs_h[hroot].get_hash(0) + libs_h[hroot].get_depth(0).to_bytes(2, 'big')), (o + hroot,)))
+            r0 = len(dagx) - 1
+            sp, sr, _, smap = prune_keep(rng, dbo.nodes[:oroot + 1], dbo.infos[:oroot + 1], oroot, set(opath[k2]) | {oroot}, 1, 0.5)
+            o = append_dag(dagx, sp.nodes[:sr + 1])
+            dagx.append((G.MPROOF, G.mproof_bits(sp.infos[sr]), (o + sr,)))
+            r1 = len(dagx) - 1
+            o2 = append_dag(dagx, dbo.nodes[:a2 + 1])
+            ctx.count('upd-child:stale-account')
+            run_account_case(ctx, dagx, [r0, r1], blk_hash, k2, o2 + a2, 'rej', 'account:stale-state',
+                             'the account state BEFORE the block accepted as the state the block commits to (new-state child of the state update forged '
+                             'into a pruned branch whose level-0 hash is the old state hash)')
+
+
+def falsy_stream(ctx, rng):
+    """every None-able argument of the proof entry points set to None / other falsy values against HONEST proofs, the account's
+    dictionary branch (a) pruned at every depth of its path, (b) revealed, (c) the address absent with its path revealed"""
+    for t in range(ctx.n(8, 40)):
+        nacc = [2, 1, 5, 13][t] if t < 4 else rng.choice([1, 2, 3, 5, 8, 13, 21])
+        db = G.DagBuilder()
+        sroot, accs, path = gen_state(rng, db, nacc)
+        if not db.ok(sroot):
+            continue
+        s_nodes, s_infos = db.nodes[:sroot + 1], db.infos[:sroot + 1]
+        hdb = G.DagBuilder()
+        hroot, hx_node, hp_new = gen_header(rng, hdb, s_infos[sroot])
+        if not hdb.ok(hroot) or hdb.infos[hroot].mask != 0:
+            continue
+        h_nodes, h_infos = hdb.nodes[:hroot + 1], hdb.infos[:hroot + 1]
+        blk_hash = h_infos[hroot].H[0]
+        key = rng.choice(sorted(accs))
+
+        def build(state_keep, prune_p):
+            dag = []
+            hp, hr, _, _ = prune_keep(rng, h_nodes, h_infos, hroot, {hroot, hx_node, hp_new}, 1, 0.4)
+            o = append_dag(dag, hp.nodes[:hr + 1])
+            dag.append((G.MPROOF, G.mproof_bits(hp.infos[hr]), (o + hr,)))
+            r0 = len(dag) - 1
+            sp, sr, _, _ = prune_keep(rng, s_nodes, s_infos, sroot, set(state_keep), 1, prune_p)
+            o = append_dag(dag, sp.nodes[:sr + 1])
+            dag.append((G.MPROOF, G.mproof_bits(sp.infos[sr]), (o + sr,)))
+            return dag, [r0, len(dag) - 1], o + sr
+
+        claims = list(FALSY_CLAIMS)
+        full = set(path[key]) | {sroot}
+        # (b) revealed
+        dag, roots, sr = build(full, 0.5)
+        for claim in claims:
+            run_account_falsy_case(ctx, dag, roots, blk_hash, key, claim, sr, 'account:falsy-claim', 'no-state claim accepted for an account that the proof shows')
+        o2 = append_dag(dag, s_nodes[:accs[key] + 1])
+        falsy_entry_args(ctx, dag, roots, blk_hash, key, o2 + accs[key])
+        # (a) pruned: every cell of the dictionary path below the accounts cell as the pruned one (path = [leaf .. dict root, accounts cell])
+        dict_path = [n for n in path[key][:-1]]
+        others = [k for k in accs if k != key]
+        for victim in dict_path[:-1] or dict_path:           # the dictionary root itself stays unless it is the leaf
+            keep = (full - {victim}) | (set(path[rng.choice(others)]) - {victim} if others and rng.random() < 0.5 else set())
+            dag, roots, sr = build(keep, 1.0)
+            for claim in (claims if victim == dict_path[0] else ['None', rng.choice(claims[1:])]):
+                run_account_falsy_case(ctx, dag, roots, blk_hash, key, claim, sr, 'account:falsy-claim',
+                                       'no-state claim accepted for an account whose dictionary branch is pruned in the proof')
+        # (c) absent, path revealed (everything of the dictionary kept): no expectation beyond the lookup's own verdict
+        absent = key ^ (1 << rng.randrange(256))
+        if absent not in accs:
+            keep_all = set(range(sroot + 1))
+            dag, roots, sr = build(keep_all, 0.0)
+            for claim in ('None', rng.choice(claims[1:])):
+                run_account_falsy_case(ctx, dag, roots, blk_hash, absent, claim, sr, 'account:falsy-claim', 'no-state claim for an address that is not in the dictionary')
+
+
 def run(ctx):
     rng = ctx.rng
     if ctx.search and src_search(ctx):
         return
-    streams = [generic_streams, account_stream, shard_stream, extra_stream, walk_stream]
+    streams = [generic_streams, account_stream, shard_stream, extra_stream, walk_stream, update_children_stream, falsy_stream]
     if ctx.search and getattr(ctx, 'src_account_first', False):
-        streams = [account_stream, shard_stream, walk_stream, generic_streams, extra_stream]     # a test of check_account_proof differs: look there first
+        streams = [account_stream, update_children_stream, falsy_stream, shard_stream, walk_stream, generic_streams, extra_stream]     # a test of check_account_proof differs: look there first
     if ctx.search:                   # the shard oracle is cheap (< 1 s): first when an obligation is broken
-        streams = [shard_stream] + [st for st in streams if st is not shard_stream]
+        first = [shard_stream, update_children_stream, falsy_stream]     # cheap oracles (a few seconds) first
+        streams = first + [st for st in streams if st not in first]
         if src_walk_differs(ctx):    # the regenerated TL-B walk differs from the hand model: the walk / account oracles first
             streams = [walk_stream, account_stream] + [st for st in streams if st not in (walk_stream, account_stream)]
     for stream in streams:
@@ -1726,9 +1979,28 @@ def replay(ctx, payload):
         ctx.case(('replay-hdr', tuple(nodes), h))
         if inp.get('expect') is not None and goth != inp['expect']:
             ctx.fail(inp.get('key', 'replay'), 'check_block_header_proof verdict differs from the expectation', inp, goth, inp['expect'])
+        if inp.get('allowed') is not None and goth not in inp['allowed']:
+            ctx.fail(inp.get('key', 'replay'), 'check_block_header_proof returned a state hash the block does not commit to as new state', inp, goth, ' | '.join(inp['allowed']))
         ctx.expect_model(f'chkhdr {dag_str(nodes)} {inp["idx"]} {hx(h)}', goth, 'replay')
+    elif inp.get('op') == 'acct-falsy':
+        run_account_falsy_case(ctx, unj(inp['dag']), inp['roots'], bytes.fromhex(inp['blk_hash']), int(inp['addr'], 16), inp['claim'], inp['sroot_idx'],
+                               inp.get('key', 'replay'), inp.get('what', 'replay'))
     elif inp.get('op') == 'walk':
         run_walk_case(ctx, unj(inp['dag']), inp['idx'], bytes.fromhex(inp['addr']), inp.get('key', 'replay'))
     elif inp.get('op') == 'acct':
         run_account_case(ctx, unj(inp['dag']), inp['roots'], bytes.fromhex(inp['blk_hash']), int(inp['addr'], 16), inp['state_idx'],
                          inp.get('expect'), inp.get('key', 'replay'), inp.get('what', 'replay'))
+
+
+# round 11 (st-proof): SPEC additions for update_children_stream / falsy_stream
+SPEC['manifest']['text'] += (' FORGED MERKLE-UPDATE CHILDREN (sampled, every run): for honest block proofs whose state update names two real shard states, the old-state '
+                             'and the new-state child are replaced by pruned branches of every mask 1..7 whose stored hashes / depths are drawn from the hashes occurring '
+                             'in the proof (old state, new state, block, the honest children\'s own hashes; all tuples for three blocks, all tuples that keep the block '
+                             'hash for the others): check_block_header_proof(.., True) must hand out the hash the block commits to as NEW state or raise, and '
+                             'check_account_proof with the forged header + an honest proof of the OLD state + the old account must raise. FALSY ARGUMENTS: '
+                             'account_state_root (and every other argument of the three entry points) set to None / False / 0 / empty values against honest proofs '
+                             'with the account revealed, its dictionary branch pruned at every depth of the path, and the address absent with the path revealed; '
+                             'an acceptance is judged by an independent three-valued lookup (found / absent / hidden) on the state cell of the proof.')
+SPEC['rule'] += ('; forged Merkle-update children: pruned branches of every mask with stored hashes from the proof\'s own hash set in place of the old / new state child, '
+                 'header verdict in {reject, new-state hash}, stale account state end to end; falsy arguments of the entry points against honest proofs with the '
+                 'account branch revealed / pruned at every depth / absent')
